@@ -28,7 +28,8 @@ func TestMain(m *testing.M) { stats.Main(m) }
 
 func draw(t *rapid.T) sim.ChainCase {
 	g := sim.GenChain(t, sim.GenOpts{
-		Net:       sim.NetOpts{MaxForkHeight: rapid.SampledFrom([]int{6, 12, 25}).Draw(t, "forkSpan"), V2Only: rapid.IntRange(0, 4).Draw(t, "v2only") == 0},
+		Net: sim.NetOpts{MaxForkHeight: rapid.SampledFrom([]int{6, 12, 25}).Draw(t, "forkSpan"), V2Only: rapid.IntRange(0, 4).Draw(t, "v2only") == 0,
+			MixedWindow: rapid.SampledFrom([]int{0, 8, 16}).Draw(t, "mixedWindow")},
 		MinBlocks: 8, MaxBlocks: 34, Reorgs: true, MaxReorg: 3, Profile: sim.Profile{Contracts: 1, MaxTxns: 5},
 		OnBlock: func(g *sim.Gen, b *sim.Builder) {
 			// blocks that revise a contract and then revise it again or renew it (legal), as a base for second-use probes
